@@ -18,6 +18,7 @@ def sig(ev, d):
 def run(chk):
     q = chk.quick
     chk.add_mc(mc("MC_Frame", "MC_Frame.cfg", workers=8))
+    chk.add_mc(mc("MC_Frame", "MC_Frame_A4.cfg", workers=8))          # alphabet 4: a length symbol with a "reserved" part
     chk.add_mc(mc("MC_Crc", "MC_Crc.cfg" if q else "MC_Crc_thorough.cfg", workers=2, timeout=3000))
     chk.add_neg(mc("MC_Frame", "NEG_C13.cfg", expect_fail=True))
     # GEN -> replay: spec-chosen slices (valid frame + near-misses per payload length) with the spec's expectation
